@@ -59,7 +59,7 @@
 //!     `current - delta`; on an unsigned key smaller than the offset the bound is declared safe and the
 //!     aggregate is emitted before the rest of the frame arrives.
 //!
-//! **Sensitivity probes** (mkpatch + `mutrun <patch> -- ./check C09 quick`, seed 0; all on the unchanged harness):
+//! **Sensitivity probes** (patches kept in `crates/vf-win/probes/`; `mutrun <patch> -- ./check C09 quick`, seed 0):
 //!  * P1 GROUPS end bound off by one (`expr/src/window_state.rs`: `current_group_idx >= delta` → `>`): VIOLATION.
 //!  * P2 bounded executor prunes one buffered row too many (`bounded_window_agg_exec.rs`:
 //!    `min(window_frame_range.start + 1, last_calculated_index)`): VIOLATION (arithmetic-underflow panic in
@@ -1463,7 +1463,7 @@ impl Property for C09 {
         case_strategy(tier)
     }
     fn budget(&self, tier: Tier) -> Budget {
-        Budget::new(tier.pick(20_000, 3_000_000), tier.pick(8, 16)).min_nontrivial(tier.pick(5_000, 800_000)).case_timeout(120)
+        Budget::new(tier.pick(20_000, 2_000_000), tier.pick(8, 16)).min_nontrivial(tier.pick(5_000, 500_000)).case_timeout(300)
     }
     fn rule(&self) -> String {
         "0-27 (thorough 0-69) rows with a unique unsigned id (with holes), 2 partition cols (Int64, Utf8), 2 order cols (Int64, Float64; ties, NULLs), value cols \
